@@ -30,20 +30,20 @@ type Input struct {
 }
 
 type Violation struct {
-	Harness string            `json:"harness"`
-	Msg     string            `json:"msg"`
-	Kind    string            `json:"kind"` // "assert" | "panic"
-	Script  []int             `json:"script"`
-	Vars    map[string]string `json:"vars"` // name -> hex
-	Known   string            `json:"known,omitempty"`
-	Stack   string            `json:"stack,omitempty"`
-	UF      bool              `json:"uf_abstracted,omitempty"`
-	Choices []int             `json:"choices"`
-	Arrs    map[string]map[string]string `json:"arrs,omitempty"`
-	Pkg     string            `json:"pkg,omitempty"`
-	Func    string            `json:"func,omitempty"`
-	Property string           `json:"property,omitempty"`
-	Params  map[string]int    `json:"params,omitempty"`
+	Harness  string                       `json:"harness"`
+	Msg      string                       `json:"msg"`
+	Kind     string                       `json:"kind"` // "assert" | "panic"
+	Script   []int                        `json:"script"`
+	Vars     map[string]string            `json:"vars"` // name -> hex
+	Known    string                       `json:"known,omitempty"`
+	Stack    string                       `json:"stack,omitempty"`
+	UF       bool                         `json:"uf_abstracted,omitempty"`
+	Choices  []int                        `json:"choices"`
+	Arrs     map[string]map[string]string `json:"arrs,omitempty"`
+	Pkg      string                       `json:"pkg,omitempty"`
+	Func     string                       `json:"func,omitempty"`
+	Property string                       `json:"property,omitempty"`
+	Params   map[string]int               `json:"params,omitempty"`
 }
 
 type Limits struct {
@@ -91,6 +91,9 @@ type Path struct {
 	inPos                                 int
 	termHeight                            int
 	selects                               []selectNote
+	batch                                 []pendingObl
+	allConds                              []*smt.Term
+	nSkipped                              int
 }
 
 type mustFail struct {
@@ -111,6 +114,9 @@ func (p *Path) assume(c *smt.Term) {
 		return
 	}
 	p.pcond = append(p.pcond, c)
+	if p.sub == nil {
+		p.allConds = append(p.allConds, c)
+	}
 	if p.sub != nil {
 		p.sub.conds = append(p.sub.conds, c)
 	}
@@ -138,14 +144,19 @@ func (p *Path) solve(extra *smt.Term, ms int, wantModel bool) (smt.Result, map[s
 	}
 	quick := p.X.Lim.IncrMS
 	if quick <= 0 {
-		quick = 300
+		quick = 400
+		if wantModel || ms > p.X.Lim.FeasMS {
+			quick = 2000 // obligations: give the warmed-up incremental session a fair chance
+		}
 	}
 	if quick > ms {
 		quick = ms
 	}
+	t0 := time.Now()
 	p.S.Push()
 	p.S.Assert(extra)
 	r, why := p.S.Check(quick)
+	p.X.addTime(wantModel, time.Since(t0))
 	if r == smt.Sat && wantModel {
 		m, arrs, err := p.model()
 		p.S.Pop()
@@ -209,6 +220,9 @@ func (p *Path) decide(c *smt.Term) bool {
 	if p.noFork > 0 {
 		panic(abortPath{"nofork", "fork while speculating"})
 	}
+	if len(p.batch) > 0 && p.sub == nil {
+		p.flushBatch()
+	}
 	p.nDecisions++
 	if p.sub != nil {
 		return p.sub.decide(p, c)
@@ -267,6 +281,7 @@ func (p *Path) choose(n int) int {
 	if p.sub != nil {
 		panic(abortPath{"harness-error", "Choose inside merged callee"})
 	}
+	p.flushBatch()
 	var d int
 	if p.pos < len(p.script) {
 		d = p.script[p.pos]
@@ -345,54 +360,122 @@ func (p *Path) model() (map[string]string, map[string]map[string]string, error) 
 }
 
 // obligation checks that cond holds on every input of this path.
+type pendingObl struct {
+	cond  *smt.Term
+	msg   string
+	kind  string
+	stack string
+}
+
+// obligation records that cond must hold on every input of this path.
+// Obligations stated one after another without an intervening branch are
+// discharged by one query (flushBatch) under the current path condition.
 func (p *Path) obligation(cond *smt.Term, msg, kind, stack string) {
 	if cond.IsTrue() {
 		p.nTrivial++
 		return
 	}
 	p.nObl++
-	C := p.C
-	notP := C.Not(cond)
-	// weaken by the open known-finding predicates
+	p.batch = append(p.batch, pendingObl{cond: cond, msg: msg, kind: kind, stack: stack})
+	if cond.IsFalse() {
+		p.flushBatch()
+	}
+}
+
+func (p *Path) knownPreds() []*smt.Term {
 	var preds []*smt.Term
 	for _, id := range p.knownOrder {
 		preds = append(preds, p.known[id])
 	}
-	q := C.And(notP, C.Not(C.Or(preds...)))
+	return preds
+}
+
+// flushBatch discharges the batched obligations: is pc ∧ ¬(c1 ∧ … ∧ cn)
+// satisfiable (outside the open known-finding predicates)?
+func (p *Path) flushBatch() {
+	if len(p.batch) == 0 {
+		return
+	}
+	batch := p.batch
+	p.batch = nil
+	C := p.C
+	ms := p.X.Lim.ObligMS
+	var cs []*smt.Term
+	for _, b := range batch {
+		cs = append(cs, b.cond)
+	}
+	conj := C.And(cs...)
+	notKnown := C.Not(C.Or(p.knownPreds()...))
+	q := C.And(C.Not(conj), notKnown)
 	if len(p.samples) < 3 {
-		p.samples = append(p.samples, fmt.Sprintf("[%s] pc=%s ; negated obligation=%s", msg, clip(p.pcTerm().String(), 600), clip(q.String(), 600)))
+		p.samples = append(p.samples, fmt.Sprintf("[%d obligation(s), first: %s] pc=%s ; negated obligation=%s", len(batch), batch[0].msg, clip(p.pcTerm().String(), 600), clip(q.String(), 800)))
 	}
 	start := time.Now()
-	r, m, arrs, why := p.solve(q, p.X.Lim.ObligMS, true)
-	switch r {
-	case smt.Unsat:
-		p.nDischarged++
-	case smt.Sat:
-		v := Violation{Harness: p.X.Harness, Msg: msg, Kind: kind, Script: p.fullScript(), Vars: m, Arrs: arrs, Stack: stack, UF: p.C.AbstractMulDiv, Choices: append([]int(nil), p.choices...)}
-		p.violations = append(p.violations, v)
-		panic(abortPath{"violation", msg})
+	r, m, arrs, why := p.solve(q, ms, true)
+	switch {
+	case r == smt.Unsat:
+		p.nDischarged += len(batch)
+	case len(batch) == 1 && r == smt.Sat:
+		p.recordViolation(batch[0], m, arrs)
+	case len(batch) == 1:
+		p.unknownObl(batch[0], why, start, q)
 	default:
-		p.nUnknown++
-		p.X.note(fmt.Sprintf("obligation %q: %s after %v", msg, why, time.Since(start).Round(time.Millisecond)))
-		if d := os.Getenv("GOSYM_DUMP"); d != "" {
-			os.WriteFile(fmt.Sprintf("%s/unknown-%d.smt2", d, time.Now().UnixNano()), []byte(smt.Script(append(append([]*smt.Term(nil), p.pcond...), q))), 0o644)
+		// locate the failing / undecided obligation(s) one at a time, in order
+		for _, b := range batch {
+			qi := C.And(C.Not(b.cond), notKnown)
+			ri, mi, ai, whyi := p.solve(qi, ms, true)
+			switch ri {
+			case smt.Unsat:
+				p.nDischarged++
+				p.assume(b.cond)
+			case smt.Sat:
+				p.recordViolation(b, mi, ai)
+			default:
+				p.unknownObl(b, whyi, start, qi)
+				p.assume(b.cond)
+			}
 		}
 	}
-	// witnesses for known findings
+	// witnesses for the open known findings
 	for _, id := range p.knownOrder {
 		if _, seen := p.knownHits[id]; seen {
 			continue
 		}
-		r, m, arrs, _ := p.solve(C.And(notP, p.known[id]), p.X.Lim.ObligMS, true)
-		if r == smt.Sat {
-			p.knownHits[id] = Violation{Harness: p.X.Harness, Msg: msg, Kind: kind, Script: p.fullScript(), Vars: m, Arrs: arrs, Known: id, Stack: stack, Choices: append([]int(nil), p.choices...)}
+		for _, b := range batch {
+			r, m, arrs, _ := p.solve(C.And(C.Not(b.cond), p.known[id]), ms, true)
+			if r == smt.Sat {
+				p.knownHits[id] = Violation{Harness: p.X.Harness, Msg: b.msg, Kind: b.kind, Script: p.fullScript(), Vars: m, Arrs: arrs, Known: id, Stack: b.stack, Choices: append([]int(nil), p.choices...)}
+				break
+			}
 		}
 	}
-	// continue under the assumption that the obligation holds
-	if r2, _ := p.check(cond, p.X.Lim.FeasMS); r2 == smt.Unsat {
-		panic(abortPath{"infeasible", "nothing left after known-finding weakening"})
+	// continue under the assumption that the obligations hold
+	if conj.IsFalse() {
+		panic(abortPath{"stopped", batch[len(batch)-1].msg})
 	}
-	p.assume(cond)
+	if len(p.knownOrder) > 0 {
+		if r2, _ := p.check(conj, p.X.Lim.FeasMS); r2 == smt.Unsat {
+			panic(abortPath{"stopped", "nothing left after known-finding weakening"})
+		}
+	}
+	p.assume(conj)
+}
+
+func (p *Path) recordViolation(b pendingObl, m map[string]string, arrs map[string]map[string]string) {
+	v := Violation{Harness: p.X.Harness, Msg: b.msg, Kind: b.kind, Script: p.fullScript(), Vars: m, Arrs: arrs, Stack: b.stack, UF: p.C.AbstractMulDiv, Choices: append([]int(nil), p.choices...)}
+	p.violations = append(p.violations, v)
+	if d := os.Getenv("GOSYM_DUMP"); d != "" {
+		os.WriteFile(fmt.Sprintf("%s/sat-%d.smt2", d, time.Now().UnixNano()), []byte(smt.Script(append(append([]*smt.Term(nil), p.pcond...), p.C.Not(b.cond)))), 0o644)
+	}
+	panic(abortPath{"violation", b.msg})
+}
+
+func (p *Path) unknownObl(b pendingObl, why string, start time.Time, q *smt.Term) {
+	p.nUnknown++
+	p.X.note(fmt.Sprintf("obligation %q: %s after %v", b.msg, why, time.Since(start).Round(time.Millisecond)))
+	if d := os.Getenv("GOSYM_DUMP"); d != "" {
+		os.WriteFile(fmt.Sprintf("%s/unknown-%d.smt2", d, time.Now().UnixNano()), []byte(smt.Script(append(append([]*smt.Term(nil), p.pcond...), q))), 0o644)
+	}
 }
 
 func (p *Path) fullScript() []int {
